@@ -164,6 +164,7 @@ PROPS["C09"]["parts"].append(dict(name="racepub09", domain="resume", domain_modu
 # C13 over the real durable-streams store: lost acknowledgements (the bus-level theorems are about a store that says no;
 # here the store said yes and the answer got lost)
 PROPS["C13"]["parts"].append(dict(name="flaky13", domain="store", domain_module="store", gen=store.gen_flaky, n_quick=30, n_thorough=600, chunk=8))
+PROPS["C13"]["parts"].append(dict(name="pubdead13", domain="store", domain_module="store", gen=store.gen_pubdead, n_quick=30, n_thorough=600, chunk=8))
 # C03's "replay … use the bundled stores … no such use deadlocks": publishes from inside replays over the three real stores
 PROPS["C03"]["parts"].append(dict(name="pubstore03", domain="store", domain_module="store", gen=store.gen_pub, n_quick=40, n_thorough=800, chunk=16))
 
